@@ -1,6 +1,6 @@
 """C09 — interned values are reclaimed only when stale and reclaimable."""
 from checks_path import *  # noqa
-from store_common import run_store
+from store_common import replay_store, run_store, run_store_nat
 from seq_common import run_seq
 
 PROPERTY = 'C09'
@@ -16,11 +16,17 @@ ASSUMPTIONS = ['single shard (constant hash) in the exact comparison; multi-shar
 
 def ties(ctx):
     n = 1500 if ctx.tier == 'quick' else 60000
-    return [run_store(ctx, 'rq', n), run_store(ctx, 'intern', n)]
+    return [run_store(ctx, 'rq', n), run_store(ctx, 'intern', n), run_store_nat(ctx, 6 if ctx.tier == 'quick' else 300)]
 
 def search(ctx, reason):
     t = run_seq(ctx, 'full', 100000, seed_offset=90, tag='search-full')
     for f in t.failures:
-        if f.kind == 'oracle':
+        if f.kind == 'oracle' and f.key not in listed_keys():
             return f
     return None
+
+def replay(ctx, path):
+    if '/store-' in path or path.endswith('.store.ops'):
+        return replay_store(ctx, path)
+    from seq_common import replay_seq
+    return replay_seq(ctx, path)
